@@ -46,14 +46,22 @@ CHECKS = {
         design="§4 C16",
     ),
     "C18": dict(
-        text="PARTIAL (bounds clause only): every RSL part of every channel class x order x nf, every splitting label and the TMC kernels "
+        text="PARTIAL. (1) Bounds: every RSL part of every channel class x order x nf, every splitting label and the TMC kernels "
              "run (Python semantics, JIT off) at a symbolic z on all feasible paths with the argument vector the calling class really "
              "packs wrapped in a bounds-recording array; every element access must satisfy 0 <= i < len (negative indices included). "
-             "In compiled mode a violation is a silent garbage read. NOT claimed: equality of machine code and interpreter results "
-             "and JIT-on = JIT-off for whole runs.",
-        note="Python semantics of the kernels (NUMBA_DISABLE_JIT=1); the numba/LLVM artefact is not analysed (out of reach of the "
-             "solvers here, see DESIGN §4 C18 and §7); external libraries as atoms.",
-        technique="symbolic execution of the kernels with bounds-recording argument vectors (z3 proxies, path exploration)",
+             "(2) Typed semantics: every @njit kernel of the current tree (143) is instrumented by an AST rewrite and swapped in place; the "
+             "same symbolic runs, plus li2, s2, nielsen(n,m,.) and wgplg(n,m,.) for every legal (n,m) on an UNRESTRICTED symbolic real "
+             "argument (all feasible paths, incl. X == 1, X == -1), record every place where numba's typed semantics differ from the "
+             "interpreter's in a modelled way: lossy declared signature (anything but f8/c16/i8/f8[:]), integer ** negative integer "
+             "(0 in typed code), int64 overflow in + - * **, unbound local / exception on a feasible path (compiled code returns an "
+             "uninitialised value). No such event may be reachable. A finding is replayed against the MACHINE CODE: the kernel is "
+             "compiled with the JIT enabled in a sub-process and compared with its py_func at the witness arguments. NOT claimed: "
+             "agreement of the LLVM code with the interpreter beyond the modelled classes (code generation, rounding) and JIT-on = JIT-off "
+             "for whole runs.",
+        note="Python semantics of the kernels (NUMBA_DISABLE_JIT=1); the numba/LLVM artefact itself is analysed only in replays; the list of "
+             "modelled divergence classes (engine/nbmodel.py) is the trust base of clause (2); external libraries as atoms.",
+        technique="symbolic execution of the (AST-instrumented) kernels with bounds-recording argument vectors and typed-semantics hooks "
+                  "(z3 proxies, path exploration); replay of findings against the numba-compiled machine code",
         design="§4 C18",
     ),
     "C15": dict(
